@@ -257,6 +257,29 @@ def check_conc_cache(case):
                     return bad("cache-loses-live-entry:concurrent",
                                "id %s missing after the run; %r" % (
                                    op[1], case), nt=nt, labels=labels)
+    # the internal structure must still be sound: let everything expire and
+    # walk it sequentially
+    try:
+        DET.advance(2000)
+        for key in (b"a", b"b", b"zz"):
+            try:
+                cache[bytearray(key)]
+                return bad("cache-returns-expired:after-concurrency",
+                           repr(case), nt=nt, labels=labels)
+            except KeyError:
+                pass
+        probe = mk_session("probe")
+        cache[bytearray(b"probe")] = probe
+        if cache[bytearray(b"probe")] is not probe:
+            return bad("cache-wrong-entry:after-concurrency", repr(case),
+                       nt=nt, labels=labels)
+        if len(cache.entriesDict) != 1:
+            return bad("cache-leaks-entries:after-concurrency",
+                       "%d entries left after expiry" % len(
+                           cache.entriesDict), nt=nt, labels=labels)
+    except Exception as e:      # noqa
+        return bad("cache-corrupted-by-concurrency:%s" % type(e).__name__,
+                   "%r; case=%r" % (e, case), nt=nt, labels=labels)
     return good(nt=nt, labels=labels)
 
 
